@@ -93,6 +93,13 @@ Definition slice_to_z (s : str) (k : Z) : str :=
 Definition rstrip_set (c : ascii) : bool :=
   ascii_eqb c sp || ascii_eqb c tabch || ascii_eqb c nl || ascii_eqb c (ch 46).
 
+(* default[:1] in {"-", "+"} and default[1:].isdecimal() *)
+Definition signed_decimal (s : str) : bool :=
+  match s with
+  | c :: r => (ascii_eqb c (ch 45) || ascii_eqb c (ch 43)) && isdecimal r
+  | [] => false
+  end.
+
 (* the coercion block *)
 Definition coerce_default (typ : option str) (default : str) : outcome pyval :=
   let typed := match typ with
@@ -105,6 +112,8 @@ Definition coerce_default (typ : option str) (default : str) : outcome pyval :=
     | None => Err Unmodelled
     end
   else if isdecimal default then Ok (VInt (Z.of_N (N_of_dec default)))
+  else if signed_decimal default then
+    match Z_of_dec_signed default with Some z => Ok (VInt z) | None => Err Unmodelled end
   else if str_eqb default (L "True") then Ok (VBool true)
   else if str_eqb default (L "False") then Ok (VBool false)
   else match float_of_str default with
@@ -145,6 +154,17 @@ Definition extract_default_fld (doc : fld str) (rstrip_default : bool) (announce
   | _ => Ok (FNone, None)
   end.
 
+(* quote(default) if isinstance(default, (str, NoneType)) and needs_quoting(typ) else default *)
+Definition shown_default (dflt : pyval) (typ : option str) : outcome pyval :=
+  match dflt with
+  | VStr _ | VNone => do nq <- needs_quoting typ; if nq then quote_val dflt else Ok dflt
+  | _ => Ok dflt
+  end.
+
+(* interpolate_defaults((name, _param), default_search_announce, require_default, emit_default_doc) *)
+Definition unquote_val (v : pyval) : pyval :=
+  match v with VStr s => VStr (unquote s) | _ => v end.
+
 (* set_default_doc((name, _param), emit_default_doc): returns the (mutated) param *)
 Definition set_default_doc (name : str) (p : param) (emit_default_doc : bool) : outcome param :=
   match p_doc p with
@@ -166,8 +186,7 @@ Definition set_default_doc (name : str) (p : param) (emit_default_doc : bool) : 
             | None => Err IndexError               (* doc[-1] on "" *)
             | Some c =>
               let doc' := if ascii_eqb c (ch 46) || ascii_eqb c (ch 44) then doc else doc ++ [ch 46] in
-              do nq <- needs_quoting (fget (p_typ p));
-              do shown <- (if nq then quote_val dflt' else Ok dflt');
+              do shown <- shown_default dflt' (fget (p_typ p));
               Ok (mkParam (Has (doc' ++ L " Defaults to " ++ py_str shown)) (p_typ p) (Some dflt'))
             end
           else Ok p'
